@@ -324,3 +324,65 @@ def wildcards_subscribed():
 
 def children_subscribed():
     return True
+
+
+# ------------------------------------------------------------------------------------------- presented children
+from mysensors import handler as HD
+
+
+def presented_child_subscribed():
+    return True
+
+
+@contract("mysensors.gateway_mqtt:BaseMQTTGateway._handle_presentation", props=["C17"])
+class MqttPresentation:
+    """the MQTT gateway's presentation handler: a child presentation that the ordinary handler accepted
+    subscribes, once, to the child's set and req topics and to its node's stream topic; a node presentation
+    or a rejected one subscribes to nothing"""
+
+    configs = [{"accepted": a, "version": v} for a in (True, False) for v in ("1.4", "2.2")]
+
+    def setup(h):
+        from mysensors.const import get_const
+
+        it, ctx = h.it, h.ctx
+        subs = []
+        tr = Modelled("transport")
+        tr.attrs["handle_subscription"] = ModelFn("handle_subscription", lambda it2, a, k: subs.append(a[0]))
+        tasks = Modelled("tasks")
+        tasks.attrs["transport"] = tr
+        gw = Obj(GM.BaseMQTTGateway, name="mqtt-gateway")
+        gw.fields.update(const=get_const(h.config["version"]), tasks=tasks)
+        msg = Obj(Message, name="msg")
+        n, c = h.sym("int", "node_id"), h.sym("int", "child_id")
+        msg.fields.update(node_id=n, child_id=c, type=0, ack=0, sub_type=h.sym("int", "sub_type"), payload=h.sym("str", "payload"), gateway=gw)
+        accepted = h.config["accepted"]
+        it.models[id(HD.handle_presentation)] = ModelFn("handle_presentation", lambda it2, a, k: a[0] if accepted else None)
+
+        def m_ok(it2, a, k):
+            from pyvc import ops
+            from pyvc.core import lift
+
+            is_child = ops.truth(it2, ops.compare(it2, "NotEq", c, 255))
+            if not accepted or is_child is False:
+                return subs == []
+            if is_child is not True:
+                # the path condition decides (the code has branched on child_id == 255): one call or none
+                if subs == []:
+                    return ops.mk("bool", z3.Not(is_child))
+            if len(subs) != 1 or not isinstance(subs[0], list) or len(subs[0]) != 3:
+                return False
+            want = [
+                _topic_term(h, ["/", n, "/", c, "/", "1", "/+/+"]),
+                _topic_term(h, ["/", n, "/", c, "/", "2", "/+/+"]),
+                _topic_term(h, ["/", n, "/+/", "4", "/+/+"]),
+            ]
+            got = [lift(ops.force(x))[1] for x in subs[0]]
+            eq = z3.And([g == w for g, w in zip(got, want)])
+            return ops.mk("bool", eq if is_child is True else z3.And(is_child, eq))
+
+        it.models[id(presented_child_subscribed)] = ModelFn("presented_child_subscribed", m_ok)
+        return [gw, msg], {}
+
+    raises = {}
+    ensures = {"child-topics-subscribed": lambda old, self, msg, result: presented_child_subscribed()}
